@@ -30,6 +30,9 @@ def scenarios(tier):
   out.append(('mux 2 endpoints, member leaves, 2 calls',
               {'stack': 'mux', 'endpoints': 2, 'ops': [('call', 'u0', 0.1025), ('call', 'u1')], 'faults': ['drop', 'reset'],
                'scripted_serverset': True, 'membership': [('leave', 0)], 'timeout': 0.5025}))
+  out.append(('mux behind a singleton pool: deadline while the pool is connecting (slow connect)',
+              {'stack': 'mux', 'mux_pool': 'singleton', 'endpoints': 1, 'ops': [('call', 's0', 0.0525), ('call', 's1', 0.2525)], 'open_timeout': 0,
+               'faults': ['stall', 'drop'], 'connect_delay': 0.1025, 'timeout': 0.5025}))
   # tags beyond 16 bits (tag counter jumps as if the tags in between were held by requests that were never answered)
   out.append(('mux on the wire with a tag above 65535: replies late or lost',
               {'stack': 'mux', 'endpoints': 1, 'ops': [('call', 't0', 0.2025), ('call', 't1', 0.1025), ('call', 't2')],
@@ -57,6 +60,9 @@ def transport_scenarios(tier):
                 {'proto': proto, 'ops': [['req', 'a', True], ['req', 'b', True]], 'max_adversarial': 0, 'early': True, 'max_preempt': 1}, 3))
     out.append(('%s transport: 3 requests on an open transport, deadline between callbacks' % proto,
                 {'proto': proto, 'ops': [['req', 'a', True], ['req', 'b', True], ['req', 'c']], 'max_adversarial': 0, 'max_preempt': 1}, 2))
+  out.append(('mux transport behind a singleton pool: requests issued while the pool connects, deadlines firing meanwhile',
+              {'proto': 'mux', 'singleton_pool': True, 'ops': [['req', 'a', True], ['req', 'b', True], ['req', 'c']], 'max_adversarial': 0,
+               'early': True}, 3))
   return out
 
 
